@@ -49,7 +49,7 @@ func renderLV(b *strings.Builder, lv LV, rest bool) {
 	if rest {
 		b.WriteString("@")
 	}
-	b.WriteString(lv.N)
+	b.WriteString(strings.Join(lv.Q, "") + lv.N)
 	for _, ix := range lv.Idx {
 		b.WriteString("[")
 		renderExpr(b, ix)
@@ -86,7 +86,7 @@ func renderForm(b *strings.Builder, f *Node) {
 	switch f.T {
 	case "cmd":
 		if f.Head.T == "name" {
-			b.WriteString(f.Head.Name)
+			b.WriteString(strings.Join(f.Head.Q, "") + f.Head.Name)
 		} else {
 			renderExpr(b, f.Head)
 		}
@@ -107,6 +107,26 @@ func renderForm(b *strings.Builder, f *Node) {
 			b.WriteString(" ")
 			renderLV(b, lv, false)
 		}
+	case "use":
+		b.WriteString("use " + f.Name)
+		if f.As != "" {
+			b.WriteString(" " + f.As)
+		}
+	case "with":
+		b.WriteString("with")
+		if len(f.Assigns) == 1 {
+			var t strings.Builder
+			renderAssign(&t, "", f.Assigns[0], true)
+			b.WriteString(t.String())
+		} else {
+			for _, a := range f.Assigns {
+				var t strings.Builder
+				renderAssign(&t, "", a, true)
+				b.WriteString(" [" + strings.TrimPrefix(t.String(), " ") + "]")
+			}
+		}
+		b.WriteString(" ")
+		renderBlock(b, f.Body)
 	case "fn":
 		b.WriteString("fn " + f.Name + " ")
 		renderExpr(b, f.Lam)
@@ -205,7 +225,7 @@ func renderExpr(b *strings.Builder, e *Node) {
 	case "str":
 		b.WriteString(QuoteBytes(e.Str))
 	case "varx":
-		name := parse.QuoteVariableName(e.Name) // $'+~'
+		name := parse.QuoteVariableName(strings.Join(e.Q, "") + e.Name) // $'+~'
 		if e.Explode {
 			b.WriteString("$@" + name)
 		} else {
